@@ -1,6 +1,7 @@
 package main
 
 import (
+	"encoding/hex"
 	"fmt"
 	"strings"
 )
@@ -9,7 +10,8 @@ import (
 
 var sqrtShapes = []string{"√9", "√16", "√0", "√(4 + 5)", "√9 + 1", "√1"}
 
-var constShapes = []string{"1 + 2", "5 - 3", "3 - 5", "300 * 300", "6 / 2", "7 / 2", "1 / 0", "0 / 5", "2 == 2", "2 == 3", "2 != 2", "2 != 3", "√2", "√2.25", "√Count",
+var constShapes = []string{"256 * 256", "65534 + 2", "32768 + 32768", "65533 + 2", "255 * 257", "65534 + 3", "65534 * 2", "65534 - 65534", "65534 / 65534", "2 - 65534", "256 * 256 == 65536", "256 * 256 > 1",
+	"1 + 2", "5 - 3", "3 - 5", "300 * 300", "6 / 2", "7 / 2", "1 / 0", "0 / 5", "2 == 2", "2 == 3", "2 != 2", "2 != 3", "√2", "√2.25", "√Count",
 	"1 + 2 + 3", "2 * 3 + 4", "2 + 3 * 4", "(1 + 2) * 3", "10 - 2 - 3", "100 / 10 / 2", "1 + 2 == 3", "65534 + 1", "65534 + 0", "32767 * 2", "0 - 0", "4 * 0", "8 / 8",
 	"1 + Count", "Count + 1 + 2", "1 + 2 + Count", "2 * 2 * Count", "1 == 1 && Flag", "true", "false", "1 == 1", "1 == 2", "1 != 1", "!(1 == 1)", "1 + 2 > 2", "1.5 + 1", "\"a\" == \"a\""}
 
@@ -1052,6 +1054,33 @@ func genRefl(stream string, seed uint64, n int) []GenCase {
 			out = append(out, GenCase{Case: c, Stream: stream, NonTrivial: true})
 		}
 	}
+	// strings that only a HOST can make: bytes that are not valid UTF-8, embedded NUL - read, measured, indexed,
+	// iterated and compared exactly as they are (judged by direct expectations: the model's strings are Unicode)
+	for k, raw := range []string{"ab\xff\xfecd\xc3", "a\xffbcd", "\xe6\x97", "x\x00y", "\xf0\x9f\x98", "ok\xc0\xafz", "\xff"} {
+		hv := HV{Kind: "str", SHex: hex.EncodeToString([]byte(raw))}
+		st := HV{Kind: "struct", Fields: []HField{{"Payload", true, hv}, {"Plain", true, HV{Kind: "str", S: "plain"}}}}
+		mp := HV{Kind: "map", ElemIface: true, KeyKind: "str", Entries: [][2]HV{{{Kind: "str", S: "Payload"}, hv}, {{Kind: "str", S: "Plain"}, {Kind: "str", S: "plain"}}}}
+		nrunes := len([]rune(raw))
+		for j, sc := range []struct{ script, role string }{
+			{"return Payload;", "expect:" + hexs(raw)},
+			{"return Payload == Same;", "expecttrue"},
+			{fmt.Sprintf("return len(Payload) == %d;", nrunes), "expecttrue"},
+			{"n = 0; foreach c in Payload { n++; } return n == len(Payload);", "expecttrue"},
+			{"n = 0; last = -1; foreach i, c in Payload { n++; last = i; } return last == len(Payload) - 1 && n == len(Payload);", "expecttrue"},
+			{"s = \"\"; foreach c in Payload { s = s + c; } return len(s) == len(Payload);", "expecttrue"},
+			{"return Payload + \"\" == Same && Same + Plain == Payload + Plain;", "expecttrue"},
+		} {
+			for oi, o := range []HV{st, mp} {
+				c := Case{ID: fmt.Sprintf("%s-rawstr-%d-%d-%d", stream, k, j, oi), Script: sc.script, Opt: (k+j)%2 == 0, Tags: []string{"reflect", "host-only-string"},
+					Runs: []Run{{Obj: o, Polls: defaultPolls}}}
+				c.Vars = append(c.Vars, struct {
+					Name string
+					V    Val
+				}{"Same", Val{Kind: "str", SHex: hex.EncodeToString([]byte(raw))}})
+				out = append(out, GenCase{Case: c, Stream: stream, NonTrivial: true, Role: sc.role, ModelFree: true})
+			}
+		}
+	}
 	// fields whose Go types are DEFINED types over the basic kinds (type Level string, type Code int, ...), in a
 	// struct, behind a pointer, inside an interface, as values of a JSON-shaped map: the same values to a script
 	{
@@ -1175,6 +1204,27 @@ func genSizeLimit(stream string, r *Rng) []GenCase {
 				Runs: []Run{{Obj: stdObject(r), Polls: 400000}}}
 			id++
 			out = append(out, GenCase{Case: c, Stream: stream, NonTrivial: true})
+		}
+	}
+	return out
+}
+
+// strings only a host can make (invalid UTF-8, embedded NUL), iterated: foreach visits exactly len(s)
+// characters, with the indexes 0..len-1, and indexing agrees with iteration
+func genHostStrings(stream string) []GenCase {
+	var out []GenCase
+	for k, raw := range []string{"ab\xff\xfecd\xc3", "a\xffbcd", "\xe6\x97", "x\x00y", "\xf0\x9f\x98", "ok\xc0\xafz", "\xff", "é\xffü"} {
+		hv := HV{Kind: "str", SHex: hex.EncodeToString([]byte(raw))}
+		st := HV{Kind: "struct", Fields: []HField{{"Payload", true, hv}}}
+		for j, script := range []string{
+			"n = 0; foreach c in Payload { n++; } return n == len(Payload);",
+			"n = 0; last = -1; foreach i, c in Payload { if (i != n) { return false; } n++; last = i; } return last == len(Payload) - 1;",
+			"i = 0; foreach c in Payload { if (c != Payload[i]) { return false; } i++; } return type(Payload[i]) == \"null\";",
+			"n = 0; foreach c in Payload { foreach d in Payload { n++; } } return n == len(Payload) * len(Payload);",
+		} {
+			c := Case{ID: fmt.Sprintf("%s-%d-%d", stream, k, j), Script: script, Opt: (k+j)%2 == 0, Tags: []string{"host-only-string", "foreach-string"},
+				Runs: []Run{{Obj: st, Polls: defaultPolls}}}
+			out = append(out, GenCase{Case: c, Stream: stream, NonTrivial: true, Role: "expecttrue", ModelFree: true})
 		}
 	}
 	return out
